@@ -48,9 +48,6 @@ Qed.
 Lemma fp_mark_add m f p v : mb_fp (mark_present (add_field_decoder m f p v) f) = upd_trait (set_present true) (mb_fp m) f.
 Proof. destruct m; reflexivity. Qed.
 
-Lemma tagbuf_fw_nonempty d tb : d <> [] -> tagbuf_after_fw d tb = d ++ skipN (lenN d) tb.
-Proof. destruct d; [congruence|reflexivity]. Qed.
-
 Section Pair.
 Variable c : ctx. Variable cp : caps. Variable from : list N. Variable fsize : N.
 Variable permissive : bool. Variable gfuel : nat.
@@ -65,7 +62,6 @@ Theorem dec_pair_step : forall fuel m off pos lvp lvo tb L content rest trL trD 
   off + lenN tok1 + lenN tok2 <= fsize ->
   n <= MAX_FLD_LENGTH - 1 ->
   L + 1 < 65536 -> L <> Common_BodyLength ->
-  lenN (itoa_N (L + 1)) = lenN (itoa_N L) ->
   find_trait (mb_fp m) L = Some trL -> t_present trL = false -> t_ftype trL = ft_Length -> t_group trL = false ->
   find_trait (mb_fp m) (L + 1) = Some trD -> t_ftype trD = ft_data -> t_group trD = false ->
   find_be (c_fields c) L = Some tyL -> find_be (c_fields c) (L + 1) = Some tyD ->
@@ -79,7 +75,7 @@ Theorem dec_pair_step : forall fuel m off pos lvp lvo tb L content rest trL trD 
     dec_loop c cp from fsize permissive gfuel fuel m3 (off + lenN tok1 + lenN tok2) pos2 lvp lvo tb2.
 Proof.
   intros fuel m off pos lvp lvo tb L content rest trL trD tyL tyD n tok1 tok2
-         Hfrom Hsz Hn HL HL9 Hlen HtL HpL HtyL HgL HtD HtyD HgD HbL HbD pos1 pos2 m1 m3.
+         Hfrom Hsz Hn HL HL9 HtL HpL HtyL HgL HtD HtyD HgD HbL HbD pos1 pos2 m1 m3.
   assert (Dn : all_digits (itoa_N n)) by apply itoa_digits.
   assert (DL : all_digits (itoa_N L)) by apply itoa_digits.
   assert (DD : all_digits (itoa_N (L + 1))) by apply itoa_digits.
@@ -108,8 +104,7 @@ Proof.
   fold n.
   rewrite xfw_exact by (try assumption; lia).
   assert (Etb : cstr_known (tagbuf_after_fw (itoa_N (L + 1)) (tagbuf_after (itoa_N L) tb)) = Some (itoa_N (L + 1))).
-  { rewrite tagbuf_fw_nonempty by apply itoa_nonempty. unfold tagbuf_after.
-    rewrite Hlen. rewrite skipN_app_len. apply cstr_known_app. apply digits_no_nul. assumption. }
+  { unfold tagbuf_after_fw. apply cstr_known_app. apply digits_no_nul. assumption. }
   rewrite Etb. rewrite atoi_u16_itoa by lia.
   rewrite cstr_no_nul by (apply digits_no_nul; assumption).
   fold pos1. fold m1.
@@ -163,7 +158,6 @@ Corollary dec_pair_step_no_nul c cp from fsize permissive gfuel :
   off + lenN tok1 + lenN tok2 <= fsize ->
   n <= MAX_FLD_LENGTH - 1 ->
   L + 1 < 65536 -> L <> Common_BodyLength ->
-  lenN (itoa_N (L + 1)) = lenN (itoa_N L) ->
   find_trait (mb_fp m) L = Some trL -> t_present trL = false -> t_ftype trL = ft_Length -> t_group trL = false ->
   find_trait (mb_fp m) (L + 1) = Some trD -> t_ftype trD = ft_data -> t_group trD = false ->
   find_be (c_fields c) L = Some tyL -> find_be (c_fields c) (L + 1) = Some tyD ->
@@ -176,9 +170,9 @@ Corollary dec_pair_step_no_nul c cp from fsize permissive gfuel :
     map_find (L + 1) (mb_fields m3) = Some content.
 Proof.
   intros Hct Hcv fuel m off pos lvp lvo tb L content rest trL trD tyL tyD n tok1 tok2 Hnn
-         Hfrom Hsz Hn HL HL9 Hlen HtL HpL HtyL HgL HtD HtyD HgD HbL HbD HfL HfD.
+         Hfrom Hsz Hn HL HL9 HtL HpL HtyL HgL HtD HtyD HgD HbL HbD HfL HfD.
   destruct (dec_pair_step c cp from fsize permissive gfuel Hct Hcv fuel m off pos lvp lvo tb L content rest
-              trL trD tyL tyD Hfrom Hsz Hn HL HL9 Hlen HtL HpL HtyL HgL HtD HtyD HgD HbL HbD) as [Hr [tb2 Hs]].
+              trL trD tyL tyD Hfrom Hsz Hn HL HL9 HtL HpL HtyL HgL HtD HtyD HgD HbL HbD) as [Hr [tb2 Hs]].
   rewrite (cstr_no_nul content Hnn) in Hs.
   eexists _, _, tb2. split; [exact Hs|]. split; [exact Hr|]. apply pair_fields; assumption.
 Qed.
